@@ -106,3 +106,24 @@ def make_sites(site_frac, labels, M, specie='Li'):
         labels=list(labels) if labels is not None else None,
         to_unit_cell=False,
     )
+
+
+_TRAJ = {}
+
+
+def vib_traj(A, L, M, dt, species=None, temperature=400.0):
+    key = (A, L, np.asarray(M).tobytes(), dt)
+    if key not in _TRAJ:
+        if len(_TRAJ) > 200:
+            _TRAJ.clear()
+        Minv = np.linalg.inv(np.asarray(M))
+        coords = np.zeros((L, A, 3))
+        for t in range(L):
+            for a in range(A):
+                base = np.array([0.2 + 0.3 * a, 0.4, 0.6]) @ np.asarray(M)
+                amp = 0.1 + 0.05 * ((t * 7 + a * 3) % 4)
+                coords[t, a] = (base + amp * DIRS[(3 * t + 5 * a) % 12]) @ Minv
+        _TRAJ[key] = coords
+    return make_trajectory(_TRAJ[key], species or ['Li'] * A, M, time_step=dt, temperature=temperature)
+
+
